@@ -439,6 +439,9 @@ class Storm:
         op = cs[0]
         op.send("JOIN " + chan)
         op.send("MODE %s +l %d" % (chan, limit))
+        # every other joiner holds an invitation: that opens +i, it does not lift +l
+        for i in range(1, k + 1, 2):
+            op.send("INVITE %s%d %s" % (pfx, i, chan))
         op.ping("l0")
         fire(cs[1:], [b"JOIN %s\r\n" % chan.encode() for _ in cs[1:]])
         peak = 0
